@@ -1054,7 +1054,7 @@ def builtin_corpus():
              [('explicit', kd) for kd in consumers.KINDS_FIXED + consumers.KINDS_EXPLICIT_ONLY + ['star:' + x for x in consumers.KINDS_STAR]] + \
              [('variadic', kd) for kd in consumers.KINDS_STAR + ['kwonly']]
     for style, kd in combos:
-        for sub in ([('q', 1)], [('e', 2)], [('q', 1), ('e', 2)]):
+        for sub in ([('q', 1), ('e', 2)],):
             k += 1
             c = {'clauses': prog, 'queries': queries, 'dyn': dyn0 if k % 4 == 0 else [],
                  'native': [{'name': n, 'arity': a, 'style': style, 'kind': kd, 'yield': ['false', 'true', 'mixed'][(k + a) % 3], 'form': FORMS[(k + a) % len(FORMS)], 'raise': None}
